@@ -183,7 +183,57 @@ def counterexample(f, assuming=TRUE):
     return None
 
 
+def _symbols(h) -> set:
+    """what ties formulas together: Boolean atom names and (non-constant) numeric terms; the truth value `T:x` and the
+    term `len(x)` are tied by the enumeration, so they count as one symbol"""
+    out = set()
+    for a in atoms(h):
+        if a[0] == "b":
+            out.add("b:" + a[1])
+            if a[1].startswith("T:"):
+                out.add("t:len(" + a[1][2:] + ")")
+        else:
+            for t in a[1:]:
+                if not _is_int(t):
+                    out.add("t:" + t)
+    return out
+
+
 def implies(f, g, assuming=TRUE) -> bool:
+    """f => g. A conjunction is split first: conjuncts that share no symbol (directly or through other conjuncts) with the
+    goal matter only if they are contradictory among themselves, which is decided per group -- the enumeration is
+    exponential in the number of atoms, and path conditions carry many facts that have nothing to do with the goal."""
+    if assuming is TRUE and f[0] == "and" and len(f[1]) > 1:
+        parts = [(c, _symbols(c)) for c in f[1]]
+        reach = _symbols(g)
+        keep, rest = [], parts
+        changed = True
+        while changed:
+            changed = False
+            nxt = []
+            for c, sy in rest:
+                if sy & reach or not sy and c[0] == "const":
+                    keep.append(c)
+                    reach |= sy
+                    changed = True
+                else:
+                    nxt.append((c, sy))
+            rest = nxt
+        if rest:
+            # groups among the unrelated conjuncts
+            groups: list[tuple[list, set]] = []
+            for c, sy in rest:
+                hit = [gr for gr in groups if gr[1] & sy]
+                merged_c, merged_s = [c], set(sy)
+                for gr in hit:
+                    merged_c += gr[0]
+                    merged_s |= gr[1]
+                    groups.remove(gr)
+                groups.append((merged_c, merged_s))
+            for cs, _ in groups:
+                if not satisfiable(And(*cs)):
+                    return True
+            return valid(Or(Not(And(*keep)), g))
     return valid(Or(Not(f), g), assuming)
 
 
